@@ -19,6 +19,7 @@ def tables : List (String → List String → Option String) := []
   ++ [Drv.codecsTable]
   ++ [Drv.TracksV1.specTable]
   ++ [Drv.T2.table]
+  ++ [Drv.TableApi.specTable]
 
 /-- Stateful groups, selected by a first line `#mode <name>`. -/
 def modes : List Mode := []
@@ -30,6 +31,7 @@ def modes : List Mode := []
   ++ [Drv.CratesV1Oracle.mode]
   ++ [Drv.CratesV1Explore.mode]
   ++ [Drv.T2.mode]
+  ++ [Drv.TableApi.mode]
   ++ Drv.C15.modes
 
 def dispatch (line : String) : String :=
